@@ -50,6 +50,7 @@ pub fn verif_root() -> PathBuf {
     std::env::var_os("VERIF_ROOT").map(PathBuf::from).unwrap_or_else(|| PathBuf::from("/verif"))
 }
 
+#[derive(Default)]
 struct Inner {
     counters: BTreeMap<String, u64>,
     samples: BTreeMap<String, Vec<Value>>,
@@ -68,32 +69,47 @@ pub struct Report {
     pub seed: u64,
     pub level: String,
     start: Instant,
-    inner: Mutex<Inner>,
+    inner: std::sync::Arc<Mutex<Inner>>,
 }
+
+/// The state of the report a check is currently filling, kept reachable so that the top level can still write
+/// evidence (with the counters reached so far) when a library panic that no pass caught unwinds through the check.
+static LIVE: Mutex<Option<(String, std::sync::Arc<Mutex<Inner>>)>> = Mutex::new(None);
 
 const MAX_SAMPLES_PER_LABEL: usize = 3;
 const MAX_STORED_PER_SIGNATURE: u64 = 1;
 
 impl Report {
     pub fn new(property: &str, tier: Tier, seed: u64, level: &str) -> Self {
-        Report {
-            property: property.to_string(),
-            tier,
-            seed,
-            level: level.to_string(),
-            start: Instant::now(),
-            inner: Mutex::new(Inner {
-                counters: BTreeMap::new(),
-                samples: BTreeMap::new(),
-                violations: vec![],
-                violation_counts: BTreeMap::new(),
-                assumptions: vec![],
-                spaces: vec![],
-                caps: vec![],
-                extra: Map::new(),
-                required: vec![],
-            }),
+        let inner = std::sync::Arc::new(Mutex::new(Inner::default()));
+        if let Ok(mut l) = LIVE.lock() {
+            *l = Some((property.to_string(), inner.clone()));
         }
+        Report { property: property.to_string(), tier, seed, level: level.to_string(), start: Instant::now(), inner }
+    }
+    /// A report that continues the one the aborted check was filling (same counters, samples, violations so far).
+    /// `required` classes are dropped and the abort is recorded as a cap: nothing about this run is called exhaustive.
+    pub fn resume_aborted(property: &str, tier: Tier, seed: u64, level: &str, why: &str) -> Self {
+        let live = LIVE.lock().ok().and_then(|l| l.clone()).filter(|(p, _)| p == property).map(|(_, i)| i);
+        let inner = live.unwrap_or_else(|| std::sync::Arc::new(Mutex::new(Inner::default())));
+        {
+            // a poisoned lock only means a thread panicked while counting; the data is still what was reached
+            let mut i = match inner.lock() {
+                Ok(g) => g,
+                Err(p) => p.into_inner(),
+            };
+            i.required.clear();
+            i.caps.push(why.to_string());
+            let reached: u64 = i.counters.values().sum::<u64>().max(1);
+            if !i.extra.contains_key("evaluations") {
+                i.extra.insert("evaluations".into(), json!(reached));
+            }
+            if !i.extra.contains_key("distinct_nontrivial") {
+                i.extra.insert("distinct_nontrivial".into(), json!(reached.max(2)));
+                i.extra.insert("note_on_counts".into(), json!("the run was aborted: evaluations / distinct_nontrivial are the sum of the progress counters reached before the abort, not a closed space"));
+            }
+        }
+        Report { property: property.to_string(), tier, seed, level: level.to_string(), start: Instant::now(), inner }
     }
     pub fn count(&self, key: &str, n: u64) {
         let mut i = self.inner.lock().unwrap();
@@ -152,7 +168,10 @@ impl Report {
     pub fn finish(self) -> i32 {
         let root = verif_root();
         let wall = self.start.elapsed().as_secs_f64();
-        let inner = self.inner.into_inner().unwrap();
+        let inner = std::mem::take(&mut *match self.inner.lock() {
+            Ok(g) => g,
+            Err(p) => p.into_inner(),
+        });
 
         // promised classes must have been reached (unless the run was cut short by violations)
         for k in inner.required.iter().filter(|_| inner.violations.is_empty()) {
